@@ -74,14 +74,20 @@ func (c *counter) Inc(v int64) {
 }
 
 func (c *counter) value() int64 {
-	curr := atomic.LoadInt64(&c.curr)
-
-	prev := atomic.LoadInt64(&c.prev)
-	if prev == curr {
-		return 0
+	// The delta must be taken in one atomic step per reporter: report passes
+	// can run concurrently (ticker loop, Close's final report, report of a
+	// closed scope on re-acquire). Read prev before curr and only advance prev
+	// if no other reporter has done so in the meantime; otherwise retry.
+	for {
+		prev := atomic.LoadInt64(&c.prev)
+		curr := atomic.LoadInt64(&c.curr)
+		if prev == curr {
+			return 0
+		}
+		if atomic.CompareAndSwapInt64(&c.prev, prev, curr) {
+			return curr - prev
+		}
 	}
-	atomic.StoreInt64(&c.prev, curr)
-	return curr - prev
 }
 
 func (c *counter) report(name string, tags map[string]string, r StatsReporter) {
